@@ -349,6 +349,46 @@ class World:  # pylint: disable=too-many-instance-attributes
             self.model[key] = data
         return list(keys)
 
+    # ------------------------------------------------------------------ a pack write that meets a stale lock file
+    def r_stale_lock(self, op):
+        idx = (op['n'] or [op['a']])[:3]
+        datas = [self.content(i) for i in idx]
+        return {'datas': datas, 'keys': [digest(self.hash_type, d) for d in datas], 'via_pack_all': op['b'] % 3 == 0,
+                'compress': bool(op['f'] & 1), 'no_holes': bool(op['f'] & 2)}
+
+    def x_stale_lock(self, rop):
+        """A writer was killed inside its pack lock some time ago (the state C05 photographs): `<pack>.lock` of the pack that is
+        being filled exists. The next pack write may be refused (FileExistsError) or may go through; the lock is then removed by
+        hand, as the documentation of an interrupted write asks, and the history goes on."""
+        raw = self.raw()
+        ids = sorted(int(n) for n in raw.pack_names if n.isdigit())
+        current = str(ids[-1]) if ids else '0'
+        lock = os.path.join(self.path, 'packs', f'{current}.lock')
+        with open(lock, 'x', encoding='utf8'):
+            pass
+        outcome = 'returned'
+        try:
+            if rop['via_pack_all']:
+                for data in rop['datas']:
+                    self.model[self.c.add_object(data)] = data
+                self.c.pack_all_loose()
+            else:
+                keys = self.c.add_objects_to_pack(rop['datas'], compress=rop['compress'], no_holes=rop['no_holes'])
+                if list(keys) != rop['keys']:
+                    raise self.viol('wrong-key:stale-lock', f'direct-to-pack next to a stale lock returned {keys}')
+        except FileExistsError:
+            outcome = 'refused'
+        finally:
+            if os.path.exists(lock):
+                os.remove(lock)
+        stored = self.raw().keys()
+        for key, data in zip(rop['keys'], rop['datas']):
+            if key in stored:
+                self.model[key] = data
+        self.flags.add('stale-lock')
+        self.flags.add(f'stale-lock:{outcome}')
+        return outcome
+
     # ------------------------------------------------------------------ read calls nested inside an iteration
     def r_nested(self, op):
         return {'outer': op['b'] % 3, 'inner': op['b'] // 3 % 4, 'every': 1 + op['a'] % 3, 'pick': op['a'], 'stop': op['f'] % 8 == 0}
